@@ -284,7 +284,7 @@ fn frame_sizes(rng: &mut Rng, frames: usize) -> Vec<Vec<u8>> {
 }
 
 fn helper_leg(cfg: &Cfg, sink: &Mutex<Sink>) -> Local {
-    let n = cfg.n(5_000, 200_000);
+    let n = cfg.n(5_000, 100_000);
     run_parallel(
         cfg,
         181,
@@ -569,7 +569,7 @@ pub fn run(cfg: &Cfg) -> Outcome {
     });
     let mut base = Local::new();
     base.note(format!(
-        "registered transfer syntaxes with a pixel encoder in this build: {}; encoders behind cargo features that are not built here (charls JPEG-LS, JPEG XL, OpenJPEG has no encoder) are not exercised",
+        "registered transfer syntaxes with a pixel encoder in this build: {}; not built in this sandbox: the JPEG-LS encoders (feature charls, needs the CharLS C++ library); JPEG 2000 / HTJ2K / RLE / JPEG lossless have no encoder in dicom-rs",
         encoders.iter().map(|(u, n)| format!("{} ({})", n, u)).collect::<Vec<_>>().join(", ")
     ));
     let leg = cfg.opt("--leg");
